@@ -114,6 +114,8 @@ def run(repo: Repo, chk: Check):
     chk.rule("R08.d", "format_enum returns .name (verbose) or .value (otherwise) of the one object it was given", floor=2)
     chk.rule("R08.e", "the output mode is read only by the spelling functions", floor=3)
     chk.rule("R08.f", "within each enumeration no two names share a number", floor=27)
+    chk.rule("R08.i", "compile-time evaluation reads hash constants through a spelling-independent coercion, so that the compact and the "
+                      "verbose compilation fold to the same values and keep the same branches (shared with R03.k)", floor=20)
     chk.rule("R08.h", "CRC-32 is computed in calc_hash only: every other place that needs a hash calls calc_hash (no second, differently signed hash)", floor=1)
     chk.rule("R08.g", "format_int prints decimal or '$'+uppercase hex of the same value, hex only for values proven non-negative", floor=2)
     u = repo.mod("utils")
@@ -287,6 +289,8 @@ def run(repo: Repo, chk: Check):
         chk.judge("R08.f", f"types_generated:{en}", not dups and len(mem) > 0, f"enum {en}: members sharing a number {dups}: the number printed in compact mode "
                   f"does not identify the name printed in verbose mode", {"members": len(mem)}, f"{gpath} class {en}")
 
+    from .c03 import r03k
+    chk.guarded(r03k, repo, chk, "R08.i")
     # ------------------------------------------------------------ R08.h
     n_crc = 0
     for mn in ("utils", "types", "compile_pass", "generate_code", "compiler", "register_assignment", "symbols", "intrinsics"):
